@@ -138,6 +138,16 @@ Theorem C01_tunnel_transparent : forall (cipher : keyclass -> codec) (comp : cod
 Proof. exact (fun cipher comp Hc Hz p Hin => tunnel_transparent_of_mirror cipher comp Hc Hz stack_sites p (C01_stacks_mirror p Hin)). Qed.
 Print Assumptions C01_tunnel_transparent.
 
+(* reflective: the xtcp visitor does NOT hand a user connection to its fallback (stcp) visitor exactly when no fallback is
+   configured - whatever the reason openTunnel failed (fallback timeout, its own 20 s timer, ...): one guard
+   `FallbackTo == ""` before TransferConn(FallbackTo, userConn), nothing else.  The xtcp-falling-back-to-stcp instance
+   of C01_tunnel_transparent (third pair: when a tunnel exists; otherwise the stcp pairs) rests on this. *)
+Theorem C01_xtcp_fallback_decision :
+  xtcp_fallback_ok xtcp_fallback = true /\
+  forall err fallback, xtcp_user_conn_fate err fallback = 2 <-> (err = true /\ fallback = false).
+Proof. split; [vm_compute; reflexivity|]. intros [] []; vm_compute; split; intros H; try discriminate H; try (destruct H; discriminate); auto. Qed.
+Print Assumptions C01_xtcp_fallback_decision.
+
 (* ---- sniff and replay ---- *)
 
 Theorem C01_sniffed_prefix_replayed : forall incoming sniff reads,
